@@ -15,7 +15,7 @@ def plan(ctx):
     obs = []
     thorough = ctx.tier == "thorough"
     # ---- L2: public API, real back ends
-    l2_shapes = [(RS, 2, 1, 1), (RS, 2, 2, 2), (ISAV, 2, 1, 1), (ISAC, 2, 1, 1)] + ([(RS, 3, 1, 1), (RS, 3, 2, 2), (ISAV, 2, 2, 2), (ISAV, 3, 2, 2)] if thorough else [])
+    l2_shapes = [(RS, 2, 1, 1), (RS, 2, 2, 2), (ISAV, 2, 1, 1)] + ([(ISAC, 2, 1, 1), (RS, 3, 1, 1), (RS, 3, 2, 2), (ISAV, 2, 2, 2), (ISAV, 3, 2, 2)] if thorough else [])
     for be, k, m, hd in l2_shapes:
         n = k + m
         unit = k * WB[be]
@@ -34,20 +34,24 @@ def plan(ctx):
         obs.append(l2_ob(be, k, m, hd, avail_orders(n, (), "rot"), ln=unit + 1, ct=2, force=1, tag="l2force"))
         obs.append(l2_ob(be, k, m, hd, avail_orders(n, emax, "rev"), ln=unit + 1, ct=2, force=0, tag="l2ct2"))
     # ---- L1: back-end ops for larger shapes (split oracle above k=2)
-    l1_shapes = [(RS, 3, 2, 2), (RS, 4, 2, 2), (RS, 5, 3, 3), (ISAV, 4, 2, 2), (ISAC, 4, 3, 3)] + ([(RS, 6, 3, 3), (RS, 8, 4, 4), (RS, 10, 4, 4), (ISAV, 6, 3, 3), (ISAV, 10, 4, 4), (ISAC, 8, 4, 4)] if thorough else [])
+    l1_shapes = [(RS, 3, 2, 2), (RS, 4, 2, 2), (ISAV, 3, 2, 2)] + ([(RS, 5, 3, 3), (ISAV, 4, 2, 2), (ISAC, 4, 3, 3), (RS, 6, 3, 3), (RS, 8, 4, 4), (RS, 10, 4, 4), (ISAV, 6, 3, 3), (ISAV, 10, 4, 4), (ISAC, 8, 4, 4)] if thorough else [])
     for be, k, m, hd in l1_shapes:
         n = k + m
-        sets = list(esets(n, 1, m))
-        if len(sets) > 48 and not thorough:
-            sets = [s for s in sets if len(s) == 1] + rnd.sample([s for s in sets if len(s) > 1], 24)
-        elif len(sets) > 400:
-            sets = [s for s in sets if len(s) == 1] + rnd.sample([s for s in sets if len(s) > 1], 200)
-        for i, ch in enumerate(chunks(sets, 3)):
+        if thorough:
+            sets = list(esets(n, 1, m))
+            if len(sets) > 400:
+                sets = [s for s in sets if len(s) == 1] + rnd.sample([s for s in sets if len(s) > 1], 200)
+        else:
+            # every set of one or two erasures + two sampled sets of maximal size (each set costs a decode plus one reconstruct per erased index)
+            sets = list(esets(n, 1, min(m, 2)))
+            if m > 2:
+                sets += rnd.sample(list(esets(n, m, m)), 2)
+        for i, ch in enumerate(chunks(sets, 1)):
             obs.append(be_l1_ob(be, k, m, hd, ch, idx=i, timeout=1500, mem=(12 if k >= 8 else 4)))
     if not thorough:
-        obs.append(be_l1_ob(RS, 10, 4, 4, [(0, 3, 11, 12), (13,), (1, 2, 3, 4)], idx=0, timeout=1500, mem=16))
+        obs.append(be_l1_ob(RS, 10, 4, 4, [(0, 11), (13,)], idx=0, timeout=1500, mem=16))
     # ---- L1: flat-XOR through the adapter ops (table sweep itself is C05)
-    for (k, m, hd) in ([(3, 3, 3), (5, 5, 3), (6, 6, 4)] if not thorough else TABLES[::4]):
+    for (k, m, hd) in ([(3, 3, 3), (5, 5, 4)] if not thorough else TABLES[::4]):
         n = k + m
         sets = list(esets(n, 1, hd - 1))
         if len(sets) > 64:
